@@ -336,7 +336,7 @@ Section Analysis.
       In p ps -> pstart p = j ->
       gget nw r j = Some x -> ckind x = KChar ch -> cw o ch = 1 ->
       gget M r j = Some m -> m <> MIgnored -> redrawn r j = false ->
-      T r j = (glyph_of ch, cface x).
+      T r j = cell_of o ch (cface x).
     Proof.
       intros p j x ch m Hin Hst Hx Hk Hw1 Hm Hni Hred.
       assert (Hb : r < h /\ j < w) by (eapply nw_bounds; eauto).
